@@ -722,7 +722,7 @@ func (t *streamableHTTPClientTransport) handleGetSSEEvents(ctx context.Context, 
 			if line == "" {
 				// Check if there's a complete event
 				if eventData != "" {
-					t.processSSEEvent(eventID, eventData)
+					t.processSSEEvent(ctx, eventID, eventData)
 					eventID, eventData = "", ""
 				}
 				continue
@@ -749,7 +749,7 @@ func (t *streamableHTTPClientTransport) handleGetSSEEvents(ctx context.Context, 
 }
 
 // Process SSE event.
-func (t *streamableHTTPClientTransport) processSSEEvent(eventID, eventData string) {
+func (t *streamableHTTPClientTransport) processSSEEvent(ctx context.Context, eventID, eventData string) {
 	// Store the last event ID for connection recovery.
 	t.lastEventID = eventID
 
@@ -807,26 +807,26 @@ func (t *streamableHTTPClientTransport) processSSEEvent(eventID, eventData strin
 		}
 
 		// Handle server-to-client request.
-		t.handleIncomingRequest(&request)
+		t.handleIncomingRequest(ctx, &request)
 	default:
 		t.logger.Debugf("Received unexpected message type via SSE: %s", msgType)
 	}
 }
 
 // handleIncomingRequest handles JSON-RPC requests from the server.
-func (t *streamableHTTPClientTransport) handleIncomingRequest(request *JSONRPCRequest) {
+func (t *streamableHTTPClientTransport) handleIncomingRequest(ctx context.Context, request *JSONRPCRequest) {
 	// Handle different types of requests.
 	switch request.Method {
 	case MethodRootsList:
-		t.handleRootsListRequest(request)
+		t.handleRootsListRequest(ctx, request)
 	default:
 		// Send method not found error.
-		t.sendErrorResponse(request, ErrCodeMethodNotFound, fmt.Sprintf("Method not found: %s", request.Method))
+		t.sendErrorResponse(ctx, request, ErrCodeMethodNotFound, fmt.Sprintf("Method not found: %s", request.Method))
 	}
 }
 
 // handleRootsListRequest handles roots/list requests from the server.
-func (t *streamableHTTPClientTransport) handleRootsListRequest(request *JSONRPCRequest) {
+func (t *streamableHTTPClientTransport) handleRootsListRequest(ctx context.Context, request *JSONRPCRequest) {
 	// Get roots from the client if it has a reference.
 	var roots []Root
 	if t.client != nil {
@@ -854,30 +854,34 @@ func (t *streamableHTTPClientTransport) handleRootsListRequest(request *JSONRPCR
 	}
 
 	// Send response through HTTP POST.
-	t.sendResponseToServer(response)
+	t.sendResponseToServer(ctx, response)
 }
 
 // sendErrorResponse sends an error response to the server.
-func (t *streamableHTTPClientTransport) sendErrorResponse(request *JSONRPCRequest, code int, message string) {
+func (t *streamableHTTPClientTransport) sendErrorResponse(ctx context.Context, request *JSONRPCRequest, code int, message string) {
 	errorResp := newJSONRPCErrorResponse(request.ID, code, message, nil)
-	t.sendResponseToServer(errorResp)
+	t.sendResponseToServer(ctx, errorResp)
 }
 
 // sendResponseToServer sends a response back to the server via HTTP POST.
-func (t *streamableHTTPClientTransport) sendResponseToServer(response interface{}) {
+// The context is the listening stream's context, which carries the values of the handshake's context.
+func (t *streamableHTTPClientTransport) sendResponseToServer(parentCtx context.Context, response interface{}) {
 	respBytes, err := json.Marshal(response)
 	if err != nil {
 		t.logger.Errorf("Error marshaling response: %v", err)
 		return
 	}
 
-	ctx, cancel := context.WithTimeout(context.Background(), 30*time.Second)
+	ctx, cancel := context.WithTimeout(parentCtx, 30*time.Second)
 	defer cancel()
 
 	httpReq, err := http.NewRequestWithContext(ctx, http.MethodPost, t.serverURL.String(), bytes.NewReader(respBytes))
 	if err != nil {
 		t.logger.Errorf("Error creating HTTP request for response: %v", err)
 		return
+	}
+	if len(t.path) != 0 {
+		httpReq.URL.Path = t.path
 	}
 
 	httpReq.Header.Set("Content-Type", "application/json")
@@ -892,6 +896,14 @@ func (t *streamableHTTPClientTransport) sendResponseToServer(response interface{
 	// Add session ID if available
 	if t.sessionID != "" {
 		httpReq.Header.Set(httputil.SessionIDHeader, t.sessionID) // Use correct MCP protocol header: Mcp-Session-Id.
+	}
+
+	// Apply HTTP before-request functions.
+	if t.client != nil {
+		if err := t.client.applyHTTPBeforeRequest(ctx, httpReq); err != nil {
+			t.logger.Errorf("HTTP before-request failed for response: %v", err)
+			return
+		}
 	}
 
 	var resp *http.Response
@@ -939,8 +951,15 @@ func (t *streamableHTTPClientTransport) terminateSession(ctx context.Context) er
 		}
 	}
 
-	// Send request
-	httpResp, err := t.httpClient.Do(httpReq)
+	// Apply HTTP before-request functions.
+	if t.client != nil {
+		if err := t.client.applyHTTPBeforeRequest(ctx, httpReq); err != nil {
+			return fmt.Errorf("HTTP before-request failed: %w", err)
+		}
+	}
+
+	// Send request using the handler
+	httpResp, err := t.httpReqHandler.Handle(ctx, t.httpClient, httpReq)
 	if err != nil {
 		return fmt.Errorf("HTTP request failed: %w", err)
 	}
